@@ -852,7 +852,7 @@ async fn run_scenario(certs: &Certs, scn: &Value) -> Result<Vec<Value>, String> 
 pub fn run(inp: &str, out: &str) -> Result<(), String> {
     let r = BufReader::new(std::fs::File::open(inp).map_err(|e| format!("{inp}: {e}"))?);
     let mut w = BufWriter::new(std::fs::File::create(out).map_err(|e| format!("{out}: {e}"))?);
-    let rt = tokio::runtime::Builder::new_current_thread().enable_all().build().map_err(|e| e.to_string())?;
+    let mut rt = tokio::runtime::Builder::new_current_thread().enable_all().build().map_err(|e| e.to_string())?;
     let certs = build_certs();
     for line in r.lines() {
         let line = line.map_err(|e| e.to_string())?;
@@ -860,7 +860,19 @@ pub fn run(inp: &str, out: &str) -> Result<(), String> {
             continue;
         }
         let scn: Value = serde_json::from_str(&line).map_err(|e| format!("scenario: {e}"))?;
-        let log = rt.block_on(run_scenario(&certs, &scn))?;
+        // a panic inside the adapter (outside the calls that are guarded individually) is data, not a tool failure
+        let r = catch_unwind(AssertUnwindSafe(|| rt.block_on(run_scenario(&certs, &scn))));
+        let log = match r {
+            Ok(l) => l?,
+            Err(e) => {
+                rt = tokio::runtime::Builder::new_current_thread().enable_all().build().map_err(|e| e.to_string())?;
+                vec![
+                    json!({"ev": "reset", "scn": scn["id"], "a_role": scn["a_role"].as_str().unwrap_or("client"), "win": {"stream": 0, "conn": 0, "send": 0}, "idle_ms": 0}),
+                    json!({"ev": "panic", "msg": panic_msg(e)}),
+                    json!({"ev": "quiesce", "aborted": true}),
+                ]
+            }
+        };
         for e in log {
             writeln!(w, "{}", e).map_err(|e| e.to_string())?;
         }
